@@ -283,3 +283,50 @@ pub axiom fn axiom_image_u8()
 //@  ret r
 //@  external_body
 //@end
+
+// =========================================================================
+// char (impls/prim.rs): written as its scalar value (u32); `char::from_u32(x).unwrap()`
+// returns the character of a valid scalar value or does not return (recorded
+// replacement of the constructor path, as for String::from_utf8)
+// =========================================================================
+
+pub struct CharR { pub x: u32 }
+#[verifier::external_body]
+pub fn assumed_char_from_u32(x: u32) -> (r: CharR)
+    ensures r.x == x,
+{ unimplemented!() }
+impl CharR {
+    /// the character with this scalar value, or no return (panic)
+    #[verifier::external_body]
+    pub fn unwrap(self) -> (r: char)
+        ensures r as u32 == self.x,
+    { unimplemented!() }
+}
+
+//@item epserde/src/impls/prim.rs props=C01,C02,C11 name=char::DeserializeInner optional <<impl DeserializeInner for char {>>
+//@  replace <<deser::Result>> <<Result>>
+//@  replace <<char::from_u32>> <<assumed_char_from_u32>>
+//@  body_prefix
+//@|    /// four bytes: the scalar value
+//@|    open spec fn parse(s: Seq<u8>, pos: nat) -> PR<Self> {
+//@|        if s.len() < 4 { PR::Short } else { PR::Val(char_of(u32_of(s.take(4))), 4) }
+//@|    }
+//@|    open spec fn eps_rel<'a>(d: Self, v: Self) -> bool { d == v }
+//@|    proof fn lemma_prefix(s: Seq<u8>, pos: nat, k: nat) {
+//@|        if k >= 4 { assert(s.take(k as int).take(4) =~= s.take(4)); }
+//@|    }
+//@  sub <<fn _deserialize_full_inner(backend: &mut impl ReadWithPos) -> deser::Result<Self> {>>
+//@  impl_arg
+//@  ret r
+//@  body_prefix
+//@|        proof { axiom_char_of(); }
+//@  sub <<fn _deserialize_eps_inner<'a>(>>
+//@  ret r
+//@  body_prefix
+//@|        proof { axiom_char_of(); }
+//@end
+
+/// the character of a scalar value (uninterpreted outside the valid range)
+pub uninterp spec fn char_of(x: u32) -> char;
+pub axiom fn axiom_char_of()
+    ensures forall|c: char| #[trigger] char_of(c as u32) == c;
